@@ -6,7 +6,7 @@
 (* modules and names the first clause that disagrees.  Verdicts are total: *)
 (* a disagreement is printed as <<"RJ", id, clause>> and the trace goes on.*)
 (***************************************************************************)
-EXTENDS Bytes, Base58, Oracle, Json, IOUtils, TLC
+EXTENDS Bytes, Base58, Wire, Oracle, Json, IOUtils, TLC
 
 Trace == JsonDeserialize(IOEnv.TRACE_FILE)
 
@@ -47,11 +47,53 @@ V_B58DecCheck(e) ==
                ELSE IF e.res.v # sh.body THEN "deccheck-body" ELSE "ok"
 
 ---------------------------------------------------------------------------
+\* C19 script and varint wire encodings
+HasEmptyElem(cmds) == \E i \in 1..Len(cmds) : ~IsOp(cmds[i]) /\ Len(cmds[i].d) = 0
+
+V_ScriptSer(e) ==            \* e.inp = [cmds, raw]
+  IF HasEmptyElem(e.inp.cmds) THEN "ok"         \* property: elements of 1..520 bytes
+  ELSE LET r == IF e.inp.raw THEN RawSerialize(e.inp.cmds) ELSE Serialize(e.inp.cmds)
+       IN IF ~r.ok THEN (IF Raised(e) THEN "ok" ELSE "ser-accepted-oversize-element")
+          ELSE IF Raised(e) THEN "ser-refused-legal-element"
+          ELSE IF e.res.v # r.bytes THEN "ser-bytes"
+          ELSE "ok"
+
+V_ScriptParse(e) ==          \* e.inp = tape; e.res.v = [cmds, used]
+  LET p == ParseScript(e.inp)
+  IN IF ~p.ok THEN (IF Raised(e) THEN "ok"
+                    ELSE IF p.phase = "fail" THEN "parse-accepted-length-mismatch"
+                    ELSE IF p.phase \in {"len0", "lenN"} THEN "parse-accepted-truncated-varint"
+                    ELSE "parse-accepted-truncated-input")
+     ELSE IF Raised(e) THEN "parse-raised-on-valid"
+     ELSE IF e.res.v.cmds # p.cmds THEN "parse-cmds"
+     ELSE IF e.res.v.used # p.used THEN "parse-consumed"
+     ELSE "ok"
+
+V_VarintEnc(e) ==            \* e.inp = LE value bytes
+  LET r == EncVarint(e.inp)
+  IN IF ~r.ok THEN (IF Raised(e) THEN "ok" ELSE "varint-accepted-too-large")
+     ELSE IF Raised(e) THEN "varint-enc-raised"
+     ELSE IF e.res.v # r.bytes THEN "varint-enc-bytes"
+     ELSE "ok"
+
+V_VarintRead(e) ==           \* e.inp = tape; e.res.v = [val (LE trimmed), used]
+  LET r == ReadVarint(e.inp)
+  IN IF ~r.ok THEN (IF Raised(e) THEN "ok" ELSE "varint-accepted-short-read")
+     ELSE IF Raised(e) THEN "varint-read-raised"
+     ELSE IF e.res.v.val # r.val THEN "varint-read-value"
+     ELSE IF e.res.v.used # r.used THEN "varint-read-consumed"
+     ELSE "ok"
+
+---------------------------------------------------------------------------
 Verdict(e) ==
   CASE e.act = "B58Enc" -> V_B58Enc(e)
     [] e.act = "B58Dec" -> V_B58Dec(e)
     [] e.act = "B58EncCheck" -> V_B58EncCheck(e)
     [] e.act = "B58DecCheck" -> V_B58DecCheck(e)
+    [] e.act = "ScriptSer" -> V_ScriptSer(e)
+    [] e.act = "ScriptParse" -> V_ScriptParse(e)
+    [] e.act = "VarintEnc" -> V_VarintEnc(e)
+    [] e.act = "VarintRead" -> V_VarintRead(e)
     [] OTHER -> "unknown-act"
 
 TraceInit == l = 1
